@@ -1,4 +1,5 @@
 import Refine.Lemmas.Cavity2Collapse
+import Refine.Lemmas.Cavity2Conf
 import Refine.Props.C01
 
 /-!
@@ -334,6 +335,32 @@ theorem enlargeVisible_terminates (g : Grid α) (c : Cav) (hinv : CavOK g c) (c'
         · next r hr => intro e; subst e; exact hnf hr
         · split <;> simp
       · simp
+
+/-- **enlargeConforming_terminates** (b, boundary loop): on a cavity that lists tets (the 3-D case) and whose lists
+    are duplicate free and live, the modelled `ref_cavity_enlarge_conforming` never runs out of its budgets
+    (`#tri slots + 1` sweeps, as many cavity-changing `enlarge_seg` calls per sweep): every such call lists a new live
+    boundary tri — whatever the conformity predicate `conf` (`ref_cavity_conforming`, CAD) answers. -/
+theorem enlargeConforming_terminates (g : Grid α) (conf : Cav → Seg → Bool) (c : Cav) (hinv : CavOK g c)
+    (htl : c.tetList ≠ []) (c' : Cav) : enlargeConforming g conf c ≠ .fuel c' := by
+  unfold enlargeConforming
+  split
+  · simp
+  · split
+    · simp
+    · split
+      · simp
+      · rcases verifySegManifold_cases c with hv | hv | hv <;> rw [hv] <;> simp only []
+        · have hnf := confLoop_no_fuel g conf (confBudget g) (confBudget g) c hinv htl (by simp [confBudget])
+            (by simp only [confBudget]; omega) c'
+          split
+          · next r hr => intro e; subst e; exact hnf hr
+          · split <;> simp
+        · have hnf := confLoop_no_fuel g conf (confBudget g) (confBudget g) { c with state := .inconsistent }
+            (cavInv_state hinv _) htl (by simp [confBudget]) (by simp only [confBudget]; omega) c'
+          split
+          · next r hr => intro e; subst e; exact hnf hr
+          · split <;> simp
+        · simp
 
 /-- what a `VISIBLE` verdict of `ref_cavity_enlarge_visible` carries -/
 structure VisibleOutcome (g : Grid α) (c c' : Cav) : Prop where
